@@ -10,3 +10,4 @@ import EdxmlProps.C18
 import EdxmlProps.C09
 import EdxmlProps.C12
 import EdxmlProps.C11
+import EdxmlProps.C03
